@@ -251,6 +251,12 @@ func decodeStruct(p Paragraph, into reflect.Value) error {
 // set a struct field value {{{
 
 func decodeStructValue(field reflect.Value, fieldType reflect.StructField, value string) error {
+	if field.Type().Kind() != reflect.String {
+		/* the newline a folded value ends in (the reader's convention,
+		 * and what multiline:"true" makes the writer produce) is
+		 * layout: only a string member keeps it */
+		value = strings.TrimSuffix(value, "\n")
+	}
 	switch field.Type().Kind() {
 	case reflect.String:
 		field.SetString(value)
